@@ -853,6 +853,15 @@ def r10_3(ctx: Ctx) -> None:
         for c in node_calls(n):
             if call_name(c) in ("add", "append") and isinstance(c.func.value, ast.Subscript) and unparse(c.func.value.value) == gname:
                 adds.append((n, c))
+    if not adds:
+        # `graph[name] = {dep}` inside the loop over the components replaces the set on every component: only the last dependency stays
+        over = [n for n in g.nodes if n.kind == "stmt" and isinstance(n.ast, ast.Assign) and il.ast in n.loops and any(
+            isinstance(t, ast.Subscript) and unparse(t.value) == gname for t in n.ast.targets)]
+        if over:
+            ctx.fail(R, ctx.key(fn, "every SharedReward component, and only those, adds an edge"), fn.loc(over[0].ast),
+                     f"`{unparse(over[0].ast)[:70]}` assigns the agent's dependency set anew for each shared-reward component instead of adding to "
+                     "it: an agent with several shared rewards keeps only the last dependency, so the order (and the cycle check) ignore the others")
+            return
     if len(adds) != 1:
         raise AnalysisError(f"R10.3: expected exactly one `graph[..].add(..)` statement, found {len(adds)}")
     an, ac = adds[0]
